@@ -62,6 +62,9 @@ def eval_term(t, env):
         if cc == 2:
             return lo if lo <= hi else lo - -(-(lo - hi) // -st) * -st
         return lo if lo < hi else lo - ((lo - hi) // -st + 1) * -st
+    if k == "cond":
+        c = eval_term(t[1], env)
+        return None if c is None else eval_term(t[2] if c else t[3], env)
     if k == "un":
         x = eval_term(t[2], env)
         if x is None:
@@ -73,7 +76,7 @@ def eval_term(t, env):
             return None
         try:
             return int({"<<": lambda: a << b, ">>": lambda: a >> b, "%": lambda: a - b * int(a / b) if b else None,
-                        "/": lambda: int(a / b) if b else None, "&": lambda: a & b, "|": lambda: a | b,
+                        "/": lambda: int(a / b) if b else None, "&": lambda: a & b, "|": lambda: a | b, "^": lambda: a ^ b,
                         "<": lambda: a < b, "<=": lambda: a <= b, ">": lambda: a > b, ">=": lambda: a >= b,
                         "==": lambda: a == b, "!=": lambda: a != b, "&&": lambda: bool(a) and bool(b),
                         "||": lambda: bool(a) or bool(b)}[t[1]]())
